@@ -908,6 +908,10 @@ def plan(tier, files):
             seeds = [0, 1] if tier == "thorough" else [0]
         else:
             kinds = [PLAIN[(n + sd0 + j * 5) % len(PLAIN)] for j in range(3)]
+            # letter case is cheap to vary and the classifier compares many values by hand: every file
+            # also gets the all-uppercase variant
+            if "upper" not in kinds:
+                kinds.append("upper")
             kinds.append((DCOMMENT + EXOTIC)[(n + sd0) % len(DCOMMENT + EXOTIC)])
             seeds = [0]
         do_corr = extra or (tier == "thorough" and n % 3 == 0) or (tier != "thorough" and n % 12 == (sd0 % 12))
